@@ -51,6 +51,8 @@ class Gen(object):
         self.closures = []      # (name, set of closed-over variables)
         self.uses_obj = False
         self.uses_dict = False
+        self.s1 = False         # S1 constructs: with cm(k), try / except E1|E2 / finally, raise E1()|E2()
+        self.ntag = 0
         self.readonly = set()   # variables of f that f itself only assigns at its top level (owned by a nonlocal-writing closure)
         self.nh = 0
 
@@ -157,6 +159,34 @@ class Gen(object):
         F = self.features
         if depth <= 0 or c < 0.3:
             return self.assign(ind, da)
+        if self.s1 and c < 0.5:
+            k = r.random()
+            if k < 0.3:
+                F.add('with')
+                self.ntag += 1
+                self.emit(ind, 'with cm(%d):' % self.ntag)
+                return self.block(ind + '    ', da, depth - 1, inloop)
+            if k < 0.5:
+                F.add('raise')
+                self.emit(ind, 'if %s:' % self.bexpr(da, 1))
+                self.emit(ind + '    ', 'raise %s()' % r.choice(['E1', 'E2']))
+                return da
+            F.add('try')
+            self.emit(ind, 'try:')
+            self.block(ind + '    ', da, depth - 1, inloop, minlen=2)
+            m = r.random()
+            if m < 0.8:
+                F.add('except')
+                self.emit(ind, 'except E1:')
+                self.block(ind + '    ', da, depth - 1, inloop)
+                if r.random() < 0.3:
+                    self.emit(ind, 'except E2:')
+                    self.block(ind + '    ', da, depth - 1, inloop)
+            if m >= 0.8 or r.random() < 0.4:
+                F.add('finally')
+                self.emit(ind, 'finally:')
+                self.block(ind + '    ', da, depth - 1, False)
+            return da
         if c < 0.55:
             F.add('if')
             self.emit(ind, 'if %s:' % self.bexpr(da))
@@ -357,8 +387,34 @@ def make_program(rng, size=10, rich=False, midreturn=False):
     return progen.Program(PRELUDE + src, INPUTS + [extra], feats, 'c02')
 
 
+def make_s1_program(rng, size=9):
+    """Core statements plus `with cm(k)`, `try / except E1|E2 / finally`, `raise E1()|E2()` — NOT pure (cm logs enter/exit):
+    used only for the correspondence of the Lean source / native semantics of the pass-through statements."""
+    g = Gen(rng, size, False, False)
+    g.s1 = True
+    ind = '    '
+    da = set()
+    for v, e in (('x', 'a'), ('y', 'b'), ('z', 'c'), ('w', '0'), ('u', '1')):
+        g.emit(ind, '%s = %s' % (v, e))
+        da.add(v)
+    while g.budget > 0:
+        da = g.stmt(ind, da, 4, False)
+    g.emit(ind, 'return %s' % g.iexpr(da, 2))
+    src = '\n'.join(['def f(a, b, c, l):'] + g.lines) + '\n'
+    feats = set(g.features) | {'s1'}
+    return progen.Program(PRELUDE + src, list(INPUTS), feats, 'c02')
+
+
 def programs(rng, n, size=10, profile='core'):
     made = 0
+    while made < n and profile == 's1':
+        p = make_s1_program(rng, size=rng.randrange(max(3, size // 2), size + 1))
+        try:
+            compile(p.source, '<gen>', 'exec')
+        except SyntaxError:
+            continue
+        made += 1
+        yield p
     while made < n:
         rich = profile == 'rich'
         mid = (profile == 'rich' and rng.random() < 0.5) or (profile == 'core' and rng.random() < 0.15)
